@@ -6,6 +6,7 @@
 import Model.Md6
 import Spec.Md6
 import Proofs.Lemmas.Md6F
+import Proofs.Lemmas.Md6V
 namespace Proofs.C17
 open Model Model.Md6 Proofs.Lemmas
 
@@ -62,6 +63,27 @@ theorem round_constant_is_Sr (N : List Spec.Md6.Word) (s : Nat) :
     by_cases h : s % 16 = 15
     · rw [if_pos h, show (s + 1) / 16 = s / 16 + 1 by omega]; rfl
     · rw [if_neg h, show (s + 1) / 16 = s / 16 by omega]
+
+/-! ### control word and node id -/
+
+/-- the control word the code assembles by `Bits` concatenation and slice assignment (`V[20:36] = p`, PAR) is the
+    report's V = 0⁴‖r¹²‖L⁸‖z⁴‖p¹⁶‖keylen⁸‖d¹², for every field value that fits its field -/
+theorem V_layout (d keylen z L r p : Nat) (hr : r < 2^12) (hL : L < 2^8) (hz : z < 2^4) (hp : p < 2^16)
+    (hk : keylen < 2^8) (hd : d < 2^12) :
+    Md6.setP (Md6.V0 d keylen z L r) p = .ok ⟨(Spec.Md6.V r L z p keylen d).toNat, 64⟩ :=
+  Md6V.setP_V0 d keylen z L r p hr hL hz hp hk hd
+
+/-- … and in SEQ, where the last block gets `V[20:36] = p; V[36:40] = Bits(1,4)` on a word built with z = 0 -/
+theorem V_layout_seq (d keylen L r p : Nat) (hr : r < 2^12) (hL : L < 2^8) (hp : p < 2^16)
+    (hk : keylen < 2^8) (hd : d < 2^12) :
+    (Md6.setP (Md6.V0 d keylen 0 L r) p >>= Md6.setZ1) = .ok ⟨(Spec.Md6.V r L 1 p keylen d).toNat, 64⟩
+    ∧ Md6.V0 d keylen 0 L r = ⟨(Spec.Md6.V r L 0 0 keylen d).toNat, 64⟩ :=
+  ⟨Md6V.setZ1_setP_V0 d keylen L r p hr hL hp hk hd, Md6V.V0_eq d keylen 0 L r hr hL (by omega) hk hd⟩
+
+/-- the node id `(level<<56)+index` stored into `W[23]` is the report's U = ℓ⁸‖i⁵⁶ -/
+theorem U_layout (level index : Nat) (hl : level < 2^8) (hi : index < 2^56) :
+    ((level <<< 56) + index) % 2 ^ 64 = (Spec.Md6.U level index).toNat :=
+  Md6V.U_eq level index hl hi
 
 example : Md6.f 1 (List.replicate 89 0) ≠ List.replicate 16 0 := by decide +kernel
 
